@@ -1817,6 +1817,34 @@ func genEngineCases(seed int64, n int, mode string) []Case {
 				frags = append(frags, g.instance(p, 0))
 			}
 		}
+		if p.kind == kStmts && p.minus != "" && p.plus != "" && p.forceHead == "" &&
+			!strings.HasPrefix(strings.TrimSpace(p.minus), "{") && !strings.HasPrefix(strings.TrimSpace(p.plus), "{") &&
+			!strings.HasPrefix(strings.TrimSpace(p.minus), "...") && !strings.HasPrefix(strings.TrimSpace(p.plus), "...") &&
+			g.chance(map[string]float64{"c05": 0.2, "c04": 0.2, "c03": 0.12, "c01": 0.08, "c09": 0.08, "mix": 0.1}[g.mode]) {
+			// one side of the change opens with the "..." of a context line, the other has a statement of its own in front
+			// of it: the statement is removed (or inserted) before a run that both sides leave alone
+			pre := g.pick("prepare(ctx)\n", "mu.Lock()\n", "start := now()\n", "<-ready\n", "*p = 0\n")
+			q := *p
+			if g.chance(0.5) {
+				q.minus, q.plus = pre+"...\n"+p.minus, "...\n"+p.plus
+				note += " opens-with-dots-drop"
+			} else {
+				q.minus, q.plus = "...\n"+p.minus, pre+"...\n"+p.plus
+				note += " opens-with-dots-insert"
+			}
+			for i := range frags {
+				fill := ""
+				for j, m := 0, g.r.Intn(3); j < m; j++ {
+					fill += g.stmt(1)
+				}
+				if note[len(note)-4:] == "drop" || g.chance(0.3) {
+					frags[i] = pre + fill + frags[i]
+				} else {
+					frags[i] = fill + frags[i]
+				}
+			}
+			p = &q
+		}
 		ic := g.importClause(p)
 		if p.forceHead != "" {
 			ic = importCase{filePkg: "p", patchHead: p.forceHead, fileImports: []string{`"fmt"`, `"time"`}, note: " imports forced-head"}
